@@ -2,7 +2,9 @@
 C18 — IFT patches change exactly what they say, atomically and order-independently.
 Property theorems only (helper lemmas live in Lemmas/Ift.lean).
 Models: Model/TableKeyed.lean ⇄ table_keyed.rs + font_patch.rs,
-        Model/GlyphKeyed.lean ⇄ glyph_keyed.rs (glyf/loca wired; gvar/CFF re-assembly NOT modelled),
+        Model/GlyphSplice.lean ⇄ glyph_keyed.rs (containers, dedup, the shared offset-array builder, glyf/loca),
+        Model/GvarKeyed.lean, Model/CffKeyed.lean ⇄ the gvar and CFF / CFF2 implementations of `GlyphDataOffsetArray`,
+        Model/GlyphKeyed.lean ⇄ `apply_glyph_keyed_patches` (all four arms wired into the font-level loop),
         Model/PatchRound.lean ⇄ patch_group.rs `apply_next_patches_with_decoder`.
 Every theorem quantifies over the decoder `dec`, which covers "a decoder that fails on its k-th call
 with each error kind, for every k".
@@ -14,6 +16,8 @@ import FontVerif.Lemmas.IftOrder
 import FontVerif.Lemmas.IftErrors
 import FontVerif.Lemmas.IftPipeline
 import FontVerif.Lemmas.IftGvar
+import FontVerif.Lemmas.IftCff
+import FontVerif.Lemmas.IftFont
 set_option linter.unusedVariables false
 namespace FontVerif.C18
 open FontVerif FontVerif.Ift
@@ -100,6 +104,44 @@ example :
     let font : Font := [(0x74616231, [1]), (0x74616232, [2]), (0x74616233, [3])]
     applyTableKeyedCore p 2 font (fun _ s _ _ => .ok s)
       = .ok ([(0x74616231, [7,7]), (0x74616233, [3])], 1) := by rfl
+
+/-- **decoder_receives_base_iff_not_replacement.**  Which dictionary `apply_table_keyed_patch` hands to
+the decoder: `dictFor font e` = none for an entry with REPLACE_TABLE set, the base font's table of that
+tag otherwise.  Formally: two decoders that agree on every call `(k, stream, dictFor font e, maxLen)`
+give the same result (tables, call count or error) on every patch — so the function never consults
+the decoder with any other dictionary (a replacement never sees the base table, a diff never runs
+without it).  For a non-replacement entry whose base table is missing no call is made at all: the
+result is the same error for every decoder. -/
+theorem decoder_receives_base_iff_not_replacement (p : Bytes) (count : Nat) (font : Font) (dec dec' : Decoder)
+    (h : ∀ k (e : TKEntry), dec k e.stream (dictFor font e) e.maxLen = dec' k e.stream (dictFor font e) e.maxLen) :
+    applyTableKeyedCore p count font dec = applyTableKeyedCore p count font dec' ∧
+    (∀ e : TKEntry, (dictFor font e = none ↔ (e.replace = true ∨ font.get e.tag = none))) ∧
+    (∀ (acc : TKAcc) (e : TKEntry), acc.processed.contains e.tag = false → e.drop = false →
+      e.replace = false → font.get e.tag = none →
+      tkStep font dec acc e = .error (.invalidPatch "Trying to patch a base table that doesn't exist.")) := by
+  refine ⟨?_, ?_, ?_⟩
+  · unfold applyTableKeyedCore
+    rw [tkLoop_congr_dec p font dec dec' h]
+  · intro e
+    unfold dictFor
+    cases e.replace <;> simp
+  · intro acc e h1 h2 h3 h4
+    unfold tkStep
+    rw [h4]
+    have : ¬ e.tag ∈ acc.processed := by simpa using h1
+    simp [this, h2, h3]
+
+/-- non-vacuity: a decoder that answers differently when a REPLACE entry is given a dictionary is
+indistinguishable from the identity decoder -/
+example :
+    let p : Bytes := [0x69,0x66,0x74,0x6b, 0,0,0,0, 1,1,1,1,1,1,1,1,1,1,1,1,1,1,1,1, 0,2,
+                      0,0,0,38, 0,0,0,49, 0,0,0,58,
+                      0x74,0x61,0x62,0x31, 1, 0,0,0,9, 7,7,
+                      0x74,0x61,0x62,0x32, 0, 0,0,0,9]
+    let font : Font := [(0x74616231, [1]), (0x74616232, [2]), (0x74616233, [3])]
+    let spy : Decoder := fun _ s b _ => match b with | none => .ok s | some base => .ok (base ++ s)
+    applyTableKeyedCore p 2 font spy
+      = .ok ([(0x74616231, [7,7]), (0x74616232, [2]), (0x74616233, [3])], 2) := by rfl
 
 /-- **compat_mismatch_is_error_before_decode.**  If the id of the mapping table named by the
 `PatchInfo` differs from the id recorded in the info, or from the id in the patch header, the result
@@ -214,6 +256,10 @@ Vocabulary (Lemmas/IftSplice.lean, IftDedup.lean, IftGlyph.lean):
   `padTo t d`               d followed by (len % divisor) zero bytes — the padding the code adds (short loca: to even)
   `numGlyphs font`          maxp.numGlyphs
   `bitAt d k`               bit k of a mapping table (byte k/8, LSB first), `bitsFor iftx infos` the patches' bit indices
+  `armOf font gps m tag`    the arm of the per-tag loop a tag selects (glyf / gvar / CFF / CFF2; `none` = ignored tag)
+                            and the tables it adds: `glyfArm`, `gvarPatch (font.get gvar)`, `cffPatch v2 (font.get IFT) (font.get CFF|CFF2)`
+  `ownerOf t`               the arm that writes table t: glyf ↦ glyf, loca ↦ glyf, gvar ↦ gvar, CFF ↦ CFF, CFF2 ↦ CFF2, else none
+  `IsArmTag tag`            tag ∈ {glyf, gvar, CFF, CFF2}
 -/
 
 /-- **glyph_keyed_splice_spec.**  If `apply_glyph_keyed_patches` succeeds and some patch names `glyf`:
@@ -235,18 +281,26 @@ theorem glyph_keyed_splice_spec (infos : List PatchInfo) (gps : List GlyphPatche
           match firstWins TAG_glyf gps g with
           | some d => padTo a.offsetType d
           | none => glyphAt a.offsets a.data g := by
-  obtain ⟨tags, ift, iftx, hn, htags, _, _, _, _, hother, _, hin, _⟩ :=
+  obtain ⟨tags, ift, iftx, hn, htags, _, _, _, _, harm, hout⟩ :=
     applyGlyphPatches_char infos gps font out hu h
   have hmem : TAG_glyf ∈ tags := ((tableTagList_ok gps tags htags).2 _).mpr hglyf
-  obtain ⟨a, repl, data, offs, ha, hd, hp, hg, hl⟩ := hin hmem
+  obtain ⟨outs, hr, hin⟩ := char_arm font out gps tags harm hout TAG_glyf hmem
+    (glyfArm font gps (numGlyphs font - 1)) (by unfold armOf; simp)
+  obtain ⟨a, repl, data, offs, ha, hd, hp, eo⟩ := glyfArm_ok font gps _ outs hr
+  subst eo
+  have hg : out.get TAG_glyf = some data := hin (TAG_glyf, data) (by simp)
+  have hl : out.get TAG_loca = some offs := hin (TAG_loca, offs) (by simp)
   obtain ⟨hsort, _, hlk⟩ := dedup_spec TAG_glyf gps repl hd
-  have hhead := hother TAG_head (by decide) (by decide) (by decide) (by decide)
+  have hhead := char_untouched font out gps tags hout TAG_head (by decide) (by decide)
+    (fun tag ho => by rw [show ownerOf TAG_head = none by decide] at ho; cases ho)
   have hrb := glyf_splice_readback font out a repl _ data offs ha hsort hp hg hl hhead
-  obtain ⟨_, _, _, hle⟩ := patchOffsetArray_facts a repl _ hsort _ data offs hp
+  have hA := glyfAndLoca_ascSound font a ha
+  obtain ⟨_, _, _, hle⟩ := patchOffsetArray_facts a repl _ hA hsort _ data offs hp
   have hlen : (chunks a a.offsetType repl (numGlyphs font - 1)).length = numGlyphs font := by
     rw [chunks_length]; omega
   refine ⟨a, _, ha, hrb, rfl, ?_, ?_, ?_, ?_, ?_, ?_⟩
-  · simp only [newOffsets_length, hlen]
+  · show (newOffsets _).length = _
+    simp only [newOffsets_length, hlen]
   · exact newOffsets_first _
   · have := newOffsets_last (chunks a a.offsetType repl (numGlyphs font - 1))
     rw [hlen] at this; exact this
@@ -256,7 +310,7 @@ theorem glyph_keyed_splice_spec (infos : List PatchInfo) (gps : List GlyphPatche
     have := hle _ (lookup_some_mem repl g d hfw)
     simp only at this; omega
   · intro g hg'
-    simp only
+    show glyphAt (newOffsets _) (List.flatten _) g = _
     rw [newOffsets_glyphAt _ g (by rw [hlen]; exact hg'), chunks_getElem]
     unfold chunkFor
     rw [hlk g]
@@ -275,20 +329,108 @@ example :
       .ok [(TAG_IFT, [10,0,0,0,0, 1,1,1,1,1,1,1,1,1,1,1,1,1,1,1,1, 4]), (TAG_glyf, [5,0,7,7,7,0]),
         (TAG_head, List.replicate 54 0), (TAG_loca, [0,0, 0,1, 0,3]), (TAG_maxp, [0,0,0x50,0, 0,2])] := by rfl
 
-/-- **glyph_keyed_other_tables_unchanged.**  On success every table other than the two mapping tables
-and glyf/loca is the base font's, byte for byte (or still absent); glyf and loca too when no patch
-names `glyf`.  (A patch naming gvar / CFF / CFF2 never succeeds in this model — those are listed as
-not modelled.) -/
+/-- **glyph_keyed_other_tables_unchanged.**  On success, for patches naming ANY mix of tables: a table
+other than the two mapping tables is the base font's, byte for byte (or still absent), unless it
+belongs to an arm some patch names — i.e. every table outside {IFT, IFTX, glyf, loca, gvar, CFF, CFF2}
+is unchanged; glyf and loca are unchanged when no patch names glyf; gvar when none names gvar; `CFF `
+when none names `CFF `; CFF2 when none names CFF2.  (Tags other than these four are ignored: a patch
+naming only `aaaa` changes nothing but the applied bits.) -/
 theorem glyph_keyed_other_tables_unchanged (infos : List PatchInfo) (gps : List GlyphPatches)
     (font out : Font) (hu : UniqueTags font) (h : applyGlyphPatches infos gps font = .ok out) :
-    (∀ t, t ≠ TAG_IFT → t ≠ TAG_IFTX → t ≠ TAG_glyf → t ≠ TAG_loca → out.get t = font.get t) ∧
+    (∀ t, t ≠ TAG_IFT → t ≠ TAG_IFTX →
+      (∀ tag, ownerOf t = some tag → ¬ ∃ gp ∈ gps, tag ∈ gp.tables) → out.get t = font.get t) ∧
+    (∀ t, t ≠ TAG_IFT → t ≠ TAG_IFTX → t ≠ TAG_glyf → t ≠ TAG_loca → t ≠ TAG_gvar → t ≠ TAG_CFF →
+      t ≠ TAG_CFF2 → out.get t = font.get t) ∧
     ((¬ ∃ gp ∈ gps, TAG_glyf ∈ gp.tables) →
-      out.get TAG_glyf = font.get TAG_glyf ∧ out.get TAG_loca = font.get TAG_loca) := by
-  obtain ⟨tags, ift, iftx, hn, htags, _, _, _, _, hother, _, _, hout⟩ :=
+      out.get TAG_glyf = font.get TAG_glyf ∧ out.get TAG_loca = font.get TAG_loca) ∧
+    ((¬ ∃ gp ∈ gps, TAG_gvar ∈ gp.tables) → out.get TAG_gvar = font.get TAG_gvar) ∧
+    ((¬ ∃ gp ∈ gps, TAG_CFF ∈ gp.tables) → out.get TAG_CFF = font.get TAG_CFF) ∧
+    ((¬ ∃ gp ∈ gps, TAG_CFF2 ∈ gp.tables) → out.get TAG_CFF2 = font.get TAG_CFF2) := by
+  obtain ⟨tags, ift, iftx, hn, htags, _, _, _, _, _, hout⟩ :=
     applyGlyphPatches_char infos gps font out hu h
-  refine ⟨hother, ?_⟩
-  intro hno
-  exact hout (fun hm => hno (((tableTagList_ok gps tags htags).2 _).mp hm))
+  have main : ∀ t, t ≠ TAG_IFT → t ≠ TAG_IFTX →
+      (∀ tag, ownerOf t = some tag → ¬ ∃ gp ∈ gps, tag ∈ gp.tables) → out.get t = font.get t := by
+    intro t h1 h2 hno
+    exact char_untouched font out gps tags hout t h1 h2
+      (fun tag ho hm => hno tag ho (((tableTagList_ok gps tags htags).2 _).mp hm))
+  refine ⟨main, ?_, ?_, ?_, ?_, ?_⟩
+  · intro t h1 h2 h3 h4 h5 h6 h7
+    apply main t h1 h2
+    intro tag ho
+    exfalso
+    rcases (ownerOf_eq_iff t tag).mp ho with ⟨_, e | e⟩ | ⟨_, e⟩ | ⟨_, e⟩ | ⟨_, e⟩
+    · exact h3 e
+    · exact h4 e
+    · exact h5 e
+    · exact h6 e
+    · exact h7 e
+  · intro hno
+    have k : ∀ t, (t = TAG_glyf ∨ t = TAG_loca) → out.get t = font.get t := by
+      intro t ht
+      apply main t (by rcases ht with e | e <;> subst e <;> decide) (by rcases ht with e | e <;> subst e <;> decide)
+      intro tag ho
+      have : tag = TAG_glyf := by
+        have := (ownerOf_glyf_iff t).mpr ht
+        rw [this] at ho; cases ho; rfl
+      subst this; exact hno
+    exact ⟨k _ (Or.inl rfl), k _ (Or.inr rfl)⟩
+  · intro hno
+    apply main _ (by decide) (by decide)
+    intro tag ho
+    rw [show ownerOf TAG_gvar = some TAG_gvar by decide] at ho; cases ho; exact hno
+  · intro hno
+    apply main _ (by decide) (by decide)
+    intro tag ho
+    rw [show ownerOf TAG_CFF = some TAG_CFF by decide] at ho; cases ho; exact hno
+  · intro hno
+    apply main _ (by decide) (by decide)
+    intro tag ho
+    rw [show ownerOf TAG_CFF2 = some TAG_CFF2 by decide] at ho; cases ho; exact hno
+
+/-- **glyph_keyed_arm_tables.**  On success, for each of gvar / `CFF ` / CFF2 that some patch names: the
+base font has the table, and the output's table is exactly what the one-table arm function computes
+from it (`gvarPatch`, `cffPatch` — characterised by `gvar_patch_spec`, `cff_patch_spec`; CFF / CFF2
+take the charstrings offset from the base font's `IFT ` table).  So a patch naming a table the font
+lacks — or CFF without a charstrings offset in `IFT ` — is an error (`patch_names_missing_table_is_error`). -/
+theorem glyph_keyed_arm_tables (infos : List PatchInfo) (gps : List GlyphPatches) (font out : Font)
+    (hu : UniqueTags font) (h : applyGlyphPatches infos gps font = .ok out) :
+    ((∃ gp ∈ gps, TAG_gvar ∈ gp.tables) → ∃ b o, font.get TAG_gvar = some b ∧ out.get TAG_gvar = some o ∧
+      gvarPatch (some b) gps (numGlyphs font - 1) = .ok o) ∧
+    (∀ v2, (∃ gp ∈ gps, cffTag v2 ∈ gp.tables) → ∃ b o, font.get (cffTag v2) = some b ∧
+      out.get (cffTag v2) = some o ∧
+      cffPatch v2 (font.get TAG_IFT) (some b) gps (numGlyphs font - 1) = .ok o) := by
+  obtain ⟨tags, ift, iftx, hn, htags, _, _, _, _, harm, hout⟩ :=
+    applyGlyphPatches_char infos gps font out hu h
+  refine ⟨?_, ?_⟩
+  · intro hg
+    have hmem : TAG_gvar ∈ tags := ((tableTagList_ok gps tags htags).2 _).mpr hg
+    obtain ⟨outs, hr, hin⟩ := char_arm font out gps tags harm hout TAG_gvar hmem
+      (oneTable TAG_gvar (gvarPatch (font.get TAG_gvar) gps (numGlyphs font - 1)))
+      (by unfold armOf; simp [show TAG_gvar ≠ TAG_glyf by decide])
+    obtain ⟨o, po, eo⟩ := oneTable_ok _ _ _ hr
+    obtain ⟨b, hb⟩ := gvarPatch_some _ _ _ _ po
+    subst eo
+    exact ⟨b, o, hb, hin (TAG_gvar, o) (by simp), by rw [← hb]; exact po⟩
+  · intro v2 hg
+    have hmem : cffTag v2 ∈ tags := ((tableTagList_ok gps tags htags).2 _).mpr hg
+    cases v2 with
+    | false =>
+      obtain ⟨outs, hr, hin⟩ := char_arm font out gps tags harm hout TAG_CFF hmem
+        (oneTable TAG_CFF (cffPatch false (font.get TAG_IFT) (font.get TAG_CFF) gps (numGlyphs font - 1)))
+        (by unfold armOf; simp [show TAG_CFF ≠ TAG_glyf by decide, show TAG_CFF ≠ TAG_gvar by decide])
+      obtain ⟨o, po, eo⟩ := oneTable_ok _ _ _ hr
+      obtain ⟨b, hb⟩ := cffPatch_some _ _ _ _ _ _ po
+      subst eo
+      exact ⟨b, o, hb, hin (TAG_CFF, o) (by simp), by rw [← hb]; exact po⟩
+    | true =>
+      obtain ⟨outs, hr, hin⟩ := char_arm font out gps tags harm hout TAG_CFF2 hmem
+        (oneTable TAG_CFF2 (cffPatch true (font.get TAG_IFT) (font.get TAG_CFF2) gps (numGlyphs font - 1)))
+        (by unfold armOf; simp [show TAG_CFF2 ≠ TAG_glyf by decide, show TAG_CFF2 ≠ TAG_gvar by decide,
+          show TAG_CFF2 ≠ TAG_CFF by decide])
+      obtain ⟨o, po, eo⟩ := oneTable_ok _ _ _ hr
+      obtain ⟨b, hb⟩ := cffPatch_some _ _ _ _ _ _ po
+      subst eo
+      exact ⟨b, o, hb, hin (TAG_CFF2, o) (by simp), by rw [← hb]; exact po⟩
 
 /-- **applied_bits_exact.**  On success, in each mapping table (IFT for `iftx = false`, IFTX for
 `true`): the length is unchanged, every patch bit index is inside the table, and bit `k` is set
@@ -303,7 +445,7 @@ theorem applied_bits_exact (infos : List PatchInfo) (gps : List GlyphPatches) (f
     | some d => ∃ d', out.get tag = some d' ∧ d'.length = d.length ∧
         (∀ b ∈ bitsFor iftx infos, b < 8 * d.length) ∧
         ∀ k, bitAt d' k = (bitAt d k || (bitsFor iftx infos).contains k) := by
-  obtain ⟨tags, ift, iftx', _, _, hma, _, h1, h2, _⟩ := applyGlyphPatches_char infos gps font out hu h
+  obtain ⟨tags, ift, iftx', _, _, hma, _, h1, h2, _, _⟩ := applyGlyphPatches_char infos gps font out hu h
   obtain ⟨m1, m2⟩ := markApplied_spec infos _ _ _ _ hma
   have key : ∀ (orig res : Option Bytes) (bits : List Nat), markedTable orig bits = some res →
       match orig with
@@ -335,30 +477,99 @@ theorem applied_bits_exact (infos : List PatchInfo) (gps : List GlyphPatches) (f
 /-! ## order and grouping independence
 
 `Agree tag gps` (Lemmas/IftOrder.lean): any two patches of the list that both carry data for a gid
-(for table `tag`) carry the SAME data for it.  A patch = (its `PatchInfo`, its decoded `GlyphPatches`). -/
+(for table `tag`) carry the SAME data for it.  `AgreeAll gps`: `Agree tag gps` for each of the four
+patchable tables glyf, gvar, `CFF `, CFF2.  A patch = (its `PatchInfo`, its decoded `GlyphPatches`). -/
 
-/-- **glyph_keyed_order_independent.**  For patches that agree on shared gids, applying ANY
-permutation of the patch list succeeds iff the original order does, with identical tables (the whole
-table directory, mapping tables with their applied bits included). -/
+/-- **glyph_keyed_order_independent.**  For patches — naming ANY mix of glyf / gvar / CFF / CFF2 /
+ignored tags — that agree on shared gids, applying ANY permutation of the patch list succeeds iff the
+original order does, with identical tables (the whole table directory, mapping tables with their
+applied bits included). -/
 theorem glyph_keyed_order_independent (ps ps' : List (PatchInfo × GlyphPatches)) (font out : Font)
-    (hperm : ps.Perm ps') (hagree : Agree TAG_glyf (ps.map (·.2)))
+    (hperm : ps.Perm ps') (hagree : AgreeAll (ps.map (·.2)))
     (h : applyGlyphPatches (ps.map (·.1)) (ps.map (·.2)) font = .ok out) :
     applyGlyphPatches (ps'.map (·.1)) (ps'.map (·.2)) font = .ok out :=
   applyGlyphPatches_perm ps ps' font out hperm hagree h
 
-/-- **glyph_keyed_grouping_independent.**  Sequential partition: applying the patches `ps1`, then
-applying `ps2` to the resulting font, gives exactly the tables that applying `ps1 ++ ps2` in one call
-gives (whenever the three applications succeed; patches agree on shared gids).  Together with
-`glyph_keyed_order_independent` this covers every permutation and every two-way grouping; longer
-groupings follow by iterating. -/
+/-- **glyph_keyed_grouping_independent.**  Sequential partition, patches naming ANY mix of tables:
+applying the patches `ps1`, then applying `ps2` to the resulting font, against applying `ps1 ++ ps2` in
+one call (whenever the three applications succeed; patches agree on shared gids).  `TableAgree … t`
+says for every tag `t`:
+  * t ∉ {gvar, `CFF `, CFF2} (the mapping tables, glyf, loca, every other table): the two routes give the
+    SAME bytes (or both no table);
+  * `CFF ` / CFF2: the same bytes, or — `CffAgree` — two tables `cffEmit v2 pre count t (encodeOffs t os) data`
+    with the same prefix before the charstrings INDEX (of the length recorded in `IFT `), the same count,
+    the same decoded offsets `os`, the same charstring data, and offset types `t`, `t'` that may differ;
+  * gvar: the same bytes provided the intermediate font's gvar and the two final gvar tables carry the
+    same long-offsets flag (`GvarWidthsAgree`).
+This is exactly known finding C18-offset-width-history-dependent: the offset width is only ever
+widened, so a grouping with a larger intermediate table can leave wider offsets behind.
+Hypotheses on the base font (`BaseOk`): maxp.numGlyphs < 65536 (a u16), gvar.glyphCount = maxp.numGlyphs,
+the charstrings INDEX at the recorded offset has ascending offsets including the last one (the
+code's own check skips the last entry).  `hift`: the applied bits of `ps1` do not disturb the
+charstrings-offset fields of `IFT ` (genuine bit indices point into the applied-entries bitmap /
+entry records, never into the header).  `hsz`: the intermediate gvar is below 4 GiB. -/
 theorem glyph_keyed_grouping_independent (ps1 ps2 : List (PatchInfo × GlyphPatches))
     (font font1 out2 out12 : Font) (hu : UniqueTags font)
+    (hagree : AgreeAll ((ps1 ++ ps2).map (·.2)))
+    (h1 : applyGlyphPatches (ps1.map (·.1)) (ps1.map (·.2)) font = .ok font1)
+    (h2 : applyGlyphPatches (ps2.map (·.1)) (ps2.map (·.2)) font1 = .ok out2)
+    (h12 : applyGlyphPatches ((ps1 ++ ps2).map (·.1)) ((ps1 ++ ps2).map (·.2)) font = .ok out12)
+    (hbase : BaseOk font)
+    (hift : ∀ v2, iftCharstringsOffset (font1.get TAG_IFT) v2 = iftCharstringsOffset (font.get TAG_IFT) v2)
+    (hsz : ∀ b, font1.get TAG_gvar = some b → b.length < 2 ^ 32) :
+    ∀ t, TableAgree font font1 out2 out12 t :=
+  (applyGlyphPatches_split ps1 ps2 font font1 out2 out12 hu hagree h1 h2 h12 hbase hift hsz).2.2
+
+/-- **glyph_keyed_grouping_independent_same_widths.**  … and when the offset widths agree — the three
+gvar long-offsets flags, and the offSize bytes of the two final CFF / CFF2 charstrings INDEXes — the two
+routes give the identical font (every table, the directory included).  For patches naming only glyf
+and ignored tags both conditions hold trivially (`glyph_keyed_grouping_independent_glyf`). -/
+theorem glyph_keyed_grouping_independent_same_widths (ps1 ps2 : List (PatchInfo × GlyphPatches))
+    (font font1 out2 out12 : Font) (hu : UniqueTags font)
+    (hagree : AgreeAll ((ps1 ++ ps2).map (·.2)))
+    (h1 : applyGlyphPatches (ps1.map (·.1)) (ps1.map (·.2)) font = .ok font1)
+    (h2 : applyGlyphPatches (ps2.map (·.1)) (ps2.map (·.2)) font1 = .ok out2)
+    (h12 : applyGlyphPatches ((ps1 ++ ps2).map (·.1)) ((ps1 ++ ps2).map (·.2)) font = .ok out12)
+    (hbase : BaseOk font)
+    (hift : ∀ v2, iftCharstringsOffset (font1.get TAG_IFT) v2 = iftCharstringsOffset (font.get TAG_IFT) v2)
+    (hsz : ∀ b, font1.get TAG_gvar = some b → b.length < 2 ^ 32)
+    (hgw : GvarWidthsAgree font1 out2 out12)
+    (hcw : ∀ v2, cffOffSizeAt v2 (iftCharstringsOffset (font.get TAG_IFT) v2) (out2.get (cffTag v2))
+                = cffOffSizeAt v2 (iftCharstringsOffset (font.get TAG_IFT) v2) (out12.get (cffTag v2))) :
+    out2 = out12 := by
+  obtain ⟨s2, s12, hall⟩ :=
+    applyGlyphPatches_split ps1 ps2 font font1 out2 out12 hu hagree h1 h2 h12 hbase hift hsz
+  apply sorted_lookup_ext _ _ s2 s12
+  intro t
+  show out2.get t = out12.get t
+  have := hall t
+  unfold TableAgree at this
+  by_cases c1 : t = TAG_gvar
+  · rw [if_pos c1] at this; exact this hgw
+  · rw [if_neg c1] at this
+    by_cases c2 : t = TAG_CFF
+    · rw [if_pos c2] at this
+      subst c2
+      exact CffAgree.eq_of_offSize false _ _ _ this (hcw false)
+    · rw [if_neg c2] at this
+      by_cases c3 : t = TAG_CFF2
+      · rw [if_pos c3] at this
+        subst c3
+        exact CffAgree.eq_of_offSize true _ _ _ this (hcw true)
+      · rw [if_neg c3] at this; exact this
+
+/-- **glyph_keyed_grouping_independent_glyf.**  Patches naming neither gvar nor `CFF ` nor CFF2 (glyf
+and ignored tags only): ps1 then ps2 on the result = ps1 ++ ps2 in one call — the whole font is equal,
+with no condition on the base font. -/
+theorem glyph_keyed_grouping_independent_glyf (ps1 ps2 : List (PatchInfo × GlyphPatches))
+    (font font1 out2 out12 : Font) (hu : UniqueTags font)
     (hagree : Agree TAG_glyf ((ps1 ++ ps2).map (·.2)))
+    (hnone : ∀ x ∈ ps1 ++ ps2, TAG_gvar ∉ x.2.tables ∧ TAG_CFF ∉ x.2.tables ∧ TAG_CFF2 ∉ x.2.tables)
     (h1 : applyGlyphPatches (ps1.map (·.1)) (ps1.map (·.2)) font = .ok font1)
     (h2 : applyGlyphPatches (ps2.map (·.1)) (ps2.map (·.2)) font1 = .ok out2)
     (h12 : applyGlyphPatches ((ps1 ++ ps2).map (·.1)) ((ps1 ++ ps2).map (·.2)) font = .ok out12) :
     out2 = out12 :=
-  applyGlyphPatches_split ps1 ps2 font font1 out2 out12 hu hagree h1 h2 h12
+  applyGlyphPatches_split_glyf ps1 ps2 font font1 out2 out12 hu hagree hnone h1 h2 h12
 
 /-- non-vacuity (and necessity of `Agree`): two AGREEING patches in both orders and split give the
 same font -/
@@ -378,49 +589,58 @@ example :
 
 /-! ## error paths (an error carries no output: `Except`, so "not partial output" holds by type) -/
 
-/-- **gid_beyond_maxp_is_error.**  If any patch carries glyf data for a gid ≥ maxp.numGlyphs, the
-application fails, whatever else the patches contain. -/
+/-- **gid_beyond_maxp_is_error.**  If any patch carries data — for glyf, gvar, `CFF ` or CFF2 — for a
+gid ≥ maxp.numGlyphs, the application fails, whatever else the patches contain. -/
 theorem gid_beyond_maxp_is_error (infos : List PatchInfo) (gps : List GlyphPatches) (font : Font)
-    (hu : UniqueTags font) (g : Nat) (d : Bytes)
-    (hl : firstWins TAG_glyf gps g = some d) (hg : numGlyphs font ≤ g) :
+    (hu : UniqueTags font) (tag : Tag) (harm : IsArmTag tag) (g : Nat) (d : Bytes)
+    (hl : firstWins tag gps g = some d) (hg : numGlyphs font ≤ g) :
     ∃ e, applyGlyphPatches infos gps font = .error e := by
   cases h : applyGlyphPatches infos gps font with
   | error e => exact ⟨e, rfl⟩
   | ok out =>
     exfalso
-    have hglyf : ∃ gp ∈ gps, TAG_glyf ∈ gp.tables := by
+    have hnamed : ∃ gp ∈ gps, tag ∈ gp.tables := by
       apply Classical.byContradiction
       intro hno
-      rw [firstWins_none_of_no_tag TAG_glyf gps hno g] at hl
+      rw [firstWins_none_of_no_tag tag gps hno g] at hl
       cases hl
-    obtain ⟨_, _, _, _, _, _, _, _, _, hlt, _⟩ := glyph_keyed_splice_spec infos gps font out hu h hglyf
-    have := hlt g d hl
-    omega
+    obtain ⟨tags, _, _, hn, htags, _, _, _, _, harms, _⟩ := applyGlyphPatches_char infos gps font out hu h
+    have hmem : tag ∈ tags := ((tableTagList_ok gps tags htags).2 _).mpr hnamed
+    cases ha : armOf font gps (numGlyphs font - 1) tag with
+    | none => exact ((armOf_none_iff _ _ _ _).mp ha) harm
+    | some r =>
+      obtain ⟨outs, e⟩ := harms tag hmem r ha
+      subst e
+      have := arm_ok_gids_le font gps _ tag outs ha g d hl
+      omega
 
-/-- **unsorted_gids_is_error.**  If a patch (as parsed by `GlyphPatches::read`) that names `glyf`
-has glyph ids that are not strictly ascending (unsorted or duplicated), the application fails. -/
+/-- **unsorted_gids_is_error.**  If a patch (as parsed by `GlyphPatches::read`) that names glyf, gvar,
+`CFF ` or CFF2 has glyph ids that are not strictly ascending (unsorted or duplicated), the application
+fails. -/
 theorem unsorted_gids_is_error (infos : List PatchInfo) (gps : List GlyphPatches) (font : Font)
     (raw : Bytes) (wide : Bool) (gp : GlyphPatches) (hr : gpRead raw wide = .ok gp)
-    (hmem : gp ∈ gps) (hglyf : TAG_glyf ∈ gp.tables) (hbad : ¬ gp.gids.Pairwise (· < ·)) :
+    (hmem : gp ∈ gps) (tag : Tag) (harm : IsArmTag tag) (hnamed : tag ∈ gp.tables)
+    (hbad : ¬ gp.gids.Pairwise (· < ·)) :
     ∃ e, applyGlyphPatches infos gps font = .error e := by
   cases h : applyGlyphPatches infos gps font with
   | error e => exact ⟨e, rfl⟩
   | ok out =>
     exfalso
-    obtain ⟨repl, hd⟩ := apply_ok_dedup infos gps font out h gp hmem hglyf
-    obtain ⟨ti, hti⟩ := indexOfTag_some_of_mem TAG_glyf gp.tables 0 hglyf
-    obtain ⟨hpw, _⟩ := dedup_items_ok TAG_glyf gps repl hd gp hmem ti hti
+    obtain ⟨repl, hd⟩ := apply_ok_dedup infos gps font out h gp hmem tag harm hnamed
+    obtain ⟨ti, hti⟩ := indexOfTag_some_of_mem tag gp.tables 0 hnamed
+    obtain ⟨hpw, _⟩ := dedup_items_ok tag gps repl hd gp hmem ti hti
     obtain ⟨_, hm, _⟩ := tableItems_spec raw wide gp hr ti (by have := indexOfTag_lt _ _ _ _ hti; omega)
     apply hbad
     rw [← hm, List.pairwise_map]
     exact hpw
 
-/-- **glyph_offset_out_of_bounds_is_error.**  If for some glyph `j` of a patch naming `glyf` (table
-index `ti`) the data offsets `(s, e)` are null, descending or beyond the decoded payload, the
-application fails. -/
+/-- **glyph_offset_out_of_bounds_is_error.**  If for some glyph `j` of a patch naming glyf / gvar / `CFF ` /
+CFF2 (table index `ti`) the data offsets `(s, e)` are null, descending or beyond the decoded payload,
+the application fails. -/
 theorem glyph_offset_out_of_bounds_is_error (infos : List PatchInfo) (gps : List GlyphPatches)
     (font : Font) (raw : Bytes) (wide : Bool) (gp : GlyphPatches) (hr : gpRead raw wide = .ok gp)
-    (hmem : gp ∈ gps) (ti : Nat) (hti : indexOfTag TAG_glyf gp.tables 0 = some ti)
+    (hmem : gp ∈ gps) (tag : Tag) (harm : IsArmTag tag) (ti : Nat)
+    (hti : indexOfTag tag gp.tables 0 = some ti)
     (j : Nat) (hj : j < gp.glyphCount)
     (hbad : gp.offsets.getD (ti * gp.glyphCount + j) 0 = 0 ∨
             gp.offsets.getD (ti * gp.glyphCount + j + 1) 0 < gp.offsets.getD (ti * gp.glyphCount + j) 0 ∨
@@ -431,11 +651,11 @@ theorem glyph_offset_out_of_bounds_is_error (infos : List PatchInfo) (gps : List
   | ok out =>
     exfalso
     have hlt := indexOfTag_lt _ _ _ _ hti
-    have hglyf : TAG_glyf ∈ gp.tables := by
+    have hnamed : tag ∈ gp.tables := by
       apply Classical.byContradiction
       intro hn; rw [indexOfTag_none _ _ _ hn] at hti; cases hti
-    obtain ⟨repl, hd⟩ := apply_ok_dedup infos gps font out h gp hmem hglyf
-    obtain ⟨_, hb⟩ := dedup_items_ok TAG_glyf gps repl hd gp hmem ti hti
+    obtain ⟨repl, hd⟩ := apply_ok_dedup infos gps font out h gp hmem tag harm hnamed
+    obtain ⟨_, hb⟩ := dedup_items_ok tag gps repl hd gp hmem ti hti
     obtain ⟨hlen, _, hidx⟩ := tableItems_spec raw wide gp hr ti (by omega)
     obtain ⟨_, _, hraw⟩ := gpRead_lengths raw wide gp hr
     have hj' : j < (tableItems gp ti).length := by rw [hlen]; exact hj
@@ -443,6 +663,38 @@ theorem glyph_offset_out_of_bounds_is_error (infos : List PatchInfo) (gps : List
     have := hb _ (List.getElem_mem hj')
     rw [e1, e2, hraw] at this
     omega
+
+/-- **patch_names_missing_table_is_error.**  A patch listing a table the font cannot offer is an
+error, never a silently skipped table: glyf without glyf / loca / head in the font; gvar without gvar;
+`CFF ` / CFF2 without that table or without a charstrings offset for it in the font's `IFT ` table
+(the offset is never looked for in `IFTX` or in the Top DICT). -/
+theorem patch_names_missing_table_is_error (infos : List PatchInfo) (gps : List GlyphPatches) (font : Font)
+    (hu : UniqueTags font) (gp : GlyphPatches) (hmem : gp ∈ gps)
+    (hbad : (TAG_glyf ∈ gp.tables ∧
+              (font.get TAG_glyf = none ∨ font.get TAG_loca = none ∨ font.get TAG_head = none)) ∨
+            (TAG_gvar ∈ gp.tables ∧ font.get TAG_gvar = none) ∨
+            (∃ v2, cffTag v2 ∈ gp.tables ∧
+              (font.get (cffTag v2) = none ∨ iftCharstringsOffset (font.get TAG_IFT) v2 = none))) :
+    ∃ e, applyGlyphPatches infos gps font = .error e := by
+  cases h : applyGlyphPatches infos gps font with
+  | error e => exact ⟨e, rfl⟩
+  | ok out =>
+    exfalso
+    obtain ⟨a1, a2⟩ := glyph_keyed_arm_tables infos gps font out hu h
+    rcases hbad with ⟨hn, hmiss⟩ | ⟨hn, hmiss⟩ | ⟨v2, hn, hmiss⟩
+    · obtain ⟨a, _, ha, _⟩ := glyph_keyed_splice_spec infos gps font out hu h ⟨gp, hmem, hn⟩
+      obtain ⟨_, _, _, g1, g2, g3, _⟩ := glyfAndLoca_some font a ha
+      rcases hmiss with e | e | e
+      · rw [e] at g1; cases g1
+      · rw [e] at g3; cases g3
+      · rw [e] at g2; cases g2
+    · obtain ⟨b, _, hb, _⟩ := a1 ⟨gp, hmem, hn⟩
+      rw [hmiss] at hb; cases hb
+    · obtain ⟨b, o, hb, _, hp⟩ := a2 v2 ⟨gp, hmem, hn⟩
+      rcases hmiss with e | e
+      · rw [e] at hb; cases hb
+      · unfold cffPatch at hp
+        rw [e] at hp; cases hp
 
 /-- **every_patch_compat_checked.**  `apply_glyph_keyed_patches` checks the compatibility id of
 EVERY patch of the group, not only the first one under a mapping table: if ANY patch in the list (at
@@ -562,12 +814,12 @@ IftPipeline.lean) = the list of (info, decoded + parsed payload) the front half 
 computes, `none` if any patch fails a compat check, the header read, the tag check, decoding or
 parsing (`applyGlyphKeyed_ok_iff`). -/
 
-/-- **glyph_keyed_order_independent_entry.**  Whole entry point, any stateless decoder: if the
-decoded patches agree on shared gids, every permutation of the (info, patch bytes) list yields
-the same font. -/
+/-- **glyph_keyed_order_independent_entry.**  Whole entry point, any stateless decoder, patches naming
+any mix of tables: if the decoded patches agree on shared gids, every permutation of the
+(info, patch bytes) list yields the same font. -/
 theorem glyph_keyed_order_independent_entry (patches patches' : List (PatchInfo × Bytes)) (font out : Font)
     (dec : Decoder) (hst : Stateless dec) (hperm : patches.Perm patches')
-    (hagree : ∀ ps, prepAll font dec patches = some ps → Agree TAG_glyf (ps.map (·.2)))
+    (hagree : ∀ ps, prepAll font dec patches = some ps → AgreeAll (ps.map (·.2)))
     (h : applyGlyphKeyed patches font dec = .ok out) :
     applyGlyphKeyed patches' font dec = .ok out := by
   obtain ⟨ps, hp, ha⟩ := (applyGlyphKeyed_ok_iff font dec hst patches out).mp h
@@ -575,11 +827,39 @@ theorem glyph_keyed_order_independent_entry (patches patches' : List (PatchInfo 
   exact (applyGlyphKeyed_ok_iff font dec hst patches' out).mpr
     ⟨ps', hp', applyGlyphPatches_perm ps ps' font out hperm' (hagree ps hp) ha⟩
 
-/-- **glyph_keyed_grouping_independent_entry.**  Whole entry point, any stateless decoder: applying
-the patches `p1`, then `p2` to the result, gives the tables of applying `p1 ++ p2` in one call. -/
+/-- **glyph_keyed_grouping_independent_entry.**  Whole entry point, any stateless decoder, any mix of
+tables: applying the patch bytes `p1`, then `p2` to the result, against applying `p1 ++ p2` in one call:
+every table agrees in the sense of `glyph_keyed_grouping_independent` (`TableAgree`: identical bytes,
+except gvar under the long-flag condition and CFF / CFF2 up to offSize). -/
 theorem glyph_keyed_grouping_independent_entry (p1 p2 : List (PatchInfo × Bytes))
     (font font1 out2 out12 : Font) (dec : Decoder) (hst : Stateless dec) (hu : UniqueTags font)
-    (hagree : ∀ ps, prepAll font dec (p1 ++ p2) = some ps → Agree TAG_glyf (ps.map (·.2)))
+    (hagree : ∀ ps, prepAll font dec (p1 ++ p2) = some ps → AgreeAll (ps.map (·.2)))
+    (h1 : applyGlyphKeyed p1 font dec = .ok font1)
+    (h2 : applyGlyphKeyed p2 font1 dec = .ok out2)
+    (h12 : applyGlyphKeyed (p1 ++ p2) font dec = .ok out12)
+    (hbase : BaseOk font)
+    (hift : ∀ v2, iftCharstringsOffset (font1.get TAG_IFT) v2 = iftCharstringsOffset (font.get TAG_IFT) v2)
+    (hsz : ∀ b, font1.get TAG_gvar = some b → b.length < 2 ^ 32) :
+    ∀ t, TableAgree font font1 out2 out12 t := by
+  obtain ⟨ps1, hp1, ha1⟩ := (applyGlyphKeyed_ok_iff font dec hst p1 font1).mp h1
+  obtain ⟨ps2', hp2', ha2⟩ := (applyGlyphKeyed_ok_iff font1 dec hst p2 out2).mp h2
+  obtain ⟨ps12, hp12, ha12⟩ := (applyGlyphKeyed_ok_iff font dec hst (p1 ++ p2) out12).mp h12
+  obtain ⟨q1, q2, e1, e2, e3⟩ := prepAll_append font dec p1 p2 ps12 hp12
+  rw [hp1] at e1
+  simp only [Option.some.injEq] at e1
+  subst e1
+  have : ps2' = q2 := prepAll_font_indep font1 font dec p2 ps2' q2 hp2' e2
+  subst this e3
+  exact (applyGlyphPatches_split ps1 ps2' font font1 out2 out12 hu (hagree _ hp12) ha1 ha2 ha12
+    hbase hift hsz).2.2
+
+/-- **glyph_keyed_grouping_independent_entry_glyf.**  … and for patches naming neither gvar nor `CFF ` nor
+CFF2 the two routes give the identical font, with no condition on the base font. -/
+theorem glyph_keyed_grouping_independent_entry_glyf (p1 p2 : List (PatchInfo × Bytes))
+    (font font1 out2 out12 : Font) (dec : Decoder) (hst : Stateless dec) (hu : UniqueTags font)
+    (hagree : ∀ ps, prepAll font dec (p1 ++ p2) = some ps →
+      Agree TAG_glyf (ps.map (·.2)) ∧
+      ∀ x ∈ ps, TAG_gvar ∉ x.2.tables ∧ TAG_CFF ∉ x.2.tables ∧ TAG_CFF2 ∉ x.2.tables)
     (h1 : applyGlyphKeyed p1 font dec = .ok font1)
     (h2 : applyGlyphKeyed p2 font1 dec = .ok out2)
     (h12 : applyGlyphKeyed (p1 ++ p2) font dec = .ok out12) :
@@ -593,7 +873,8 @@ theorem glyph_keyed_grouping_independent_entry (p1 p2 : List (PatchInfo × Bytes
   subst e1
   have : ps2' = q2 := prepAll_font_indep font1 font dec p2 ps2' q2 hp2' e2
   subst this e3
-  exact applyGlyphPatches_split ps1 ps2' font font1 out2 out12 hu (hagree _ hp12) ha1 ha2 ha12
+  obtain ⟨g1, g2⟩ := hagree _ hp12
+  exact applyGlyphPatches_split_glyf ps1 ps2' font font1 out2 out12 hu g1 g2 ha1 ha2 ha12
 
 /-- **glyph_keyed_entry_reduces.**  For ANY decoder (fault-injecting ones included): a successful
 `apply_glyph_keyed_patches` on patch bytes is compat checks ✓ for every patch, `n` successful decoder
@@ -675,6 +956,22 @@ theorem gvar_patch_order_independent (g : Option Bytes) (gps gps' : List GlyphPa
     gvarPatch g gps' m = .ok out :=
   gvarPatch_perm g gps gps' m out hp ha h
 
+/-- **gvar_patch_grouping_independent.**  The gvar arm in two steps: when the intermediate table and the
+two final tables carry the same long-offsets flag, `gps1` then `gps2` on the result gives byte for byte
+the table of `gps1 ++ gps2` in one go (base gvar with glyphCount = maxGid + 1, intermediate table below
+4 GiB).  Without the flag condition the tables may differ in the flag, the offset encoding and the zero
+pad byte short offsets force — known finding C18-offset-width-history-dependent. -/
+theorem gvar_patch_grouping_independent (b : Bytes) (gps1 gps2 : List GlyphPatches) (m : Nat)
+    (out1 out2 out12 : Bytes)
+    (hgc : ∀ v, gvarRead b = some v → v.glyphCount = m + 1) (hsz : out1.length < 2 ^ 32)
+    (hagree : Agree TAG_gvar (gps1 ++ gps2))
+    (h1 : gvarPatch (some b) gps1 m = .ok out1)
+    (h2 : gvarPatch (some out1) gps2 m = .ok out2)
+    (h12 : gvarPatch (some b) (gps1 ++ gps2) m = .ok out12)
+    (hw1 : gvarLongBit out1 = gvarLongBit out12) (hw2 : gvarLongBit out2 = gvarLongBit out12) :
+    out2 = out12 :=
+  gvarPatch_two_step b gps1 gps2 m out1 out2 out12 hgc hsz hagree h1 h2 h12 hw1 hw2
+
 /-- **gvar_without_glyph_data_is_error** (records known finding C18-gvar-all-glyph-data-empty in the
 model): when the patched gvar would carry no glyph variation data at all the arm answers
 `SerializationError(NONE)` instead of emitting the table. -/
@@ -691,5 +988,232 @@ example :
     let gp : GlyphPatches := { glyphCount := 1, tables := [TAG_gvar], gids := [0], offsets := [1, 4], raw := [9,7,7,7] }
     gvarPatch (some gv) [gp] 1 =
       .ok [0,1,0,0, 0,1, 0,1, 0,0,0,26, 0,2, 0,0, 0,0,0,28, 0,0, 0,2, 0,3, 0xAA,0xBB, 7,7,7,0, 3,4] := by rfl
+
+/-! ## CFF / CFF2 (Model/CffKeyed.lean: the `Cff::TAG` / `Cff2::TAG` arms — charstrings offset from the font's
+`IFT ` table, `Cff::read` / `Cff2::read`, `Index1::read` / `Index2::read` at that offset, `patch_offset_array`,
+`CFFAndCharStrings::add_to_font` — as a function `cffPatch v2 ift table patches maxGid` of the two tables;
+tied to the real `apply_glyph_keyed_patches` by the `cff_patch` and `gk` correspondence groups)
+
+Vocabulary: `cffView v2 b at m` = the charstrings INDEX the code finds (`IndexView`: count, offSize, offset
+bytes, data) and its offset type; `cffOffsets ix` = the decoded offsets (bias 1 removed); `cffTag v2` =
+`CFF ` / CFF2; `cffCountWidth v2` = 2 / 4; `IsCffType t` = t is one of the four CFF offset types
+(width 1..4, divisor 1, bias 1, max representable 2^(8w) - 2). -/
+
+/-- **cff_patch_spec.**  If the CFF / CFF2 arm succeeds (maxGid + 1 < 65536: maxp.numGlyphs is a u16): the
+charstrings offset `at` comes from the `IFT ` table, the base table passed `cffView`; the new offset type
+`t` is a CFF type that can address the new total, it is the old one whenever that still fits, otherwise
+the FIRST of offSize 1, 2, 3, 4 that fits (`offset_width_widened_iff_needed` instantiated); every
+listed gid is ≤ maxGid.  When the base INDEX's decoded offsets ascend (the last one included — the
+code's own check skips it): the new table keeps the bytes before `at` unchanged, an INDEX reads back
+at `at` with count = maxGid + 1, offSize = the width of `t`, all `maxGid + 2` offsets readable, ascending
+from 0 to the length of the data area — which ends the table — and for EVERY gid the charstring is the
+data of the FIRST patch listing it, else the old charstring. -/
+theorem cff_patch_spec (v2 : Bool) (ift : Option Bytes) (b : Bytes) (gps : List GlyphPatches) (m : Nat)
+    (out : Bytes) (h : cffPatch v2 ift (some b) gps m = .ok out) (hm : m + 1 < 65536) :
+    ∃ at_ ix t0 t, iftCharstringsOffset ift v2 = some at_ ∧ cffView v2 b at_ m = .ok (ix, t0) ∧
+      IsCffType t0 ∧ IsCffType t ∧
+      (∃ repl total, dedup (cffTag v2) gps = .ok repl ∧
+        totalDataSize (cffArray ix t0) repl m = .ok total ∧ total ≤ t.maxRepresentable ∧
+        (total ≤ t0.maxRepresentable → t = t0) ∧
+        (t0.maxRepresentable < total →
+          ∃ pre post, [OffsetType.cffOne, .cffTwo, .cffThree, .cffFour] = pre ++ t :: post ∧
+            ∀ c ∈ pre, c.maxRepresentable < total)) ∧
+      (∀ g d, firstWins (cffTag v2) gps g = some d → g ≤ m) ∧
+      (ascending (cffOffsets ix) = true →
+        at_ ≤ out.length ∧ out.take at_ = b.take at_ ∧
+        ∃ ix', indexRead (cffCountWidth v2) (out.drop at_) = .ok ix' ∧
+          ix'.count = m + 1 ∧ ix'.offSize = t.width ∧
+          cffOffsetOpts ix' = (cffOffsets ix').map some ∧
+          (cffOffsets ix').length = m + 2 ∧ (cffOffsets ix').getD 0 0 = 0 ∧
+          (cffOffsets ix').getD (m + 1) 0 = ix'.data.length ∧
+          (cffOffsets ix').Pairwise (· ≤ ·) ∧
+          ∀ g, g ≤ m → glyphAt (cffOffsets ix') ix'.data g =
+            match firstWins (cffTag v2) gps g with
+            | some d => d
+            | none => glyphAt (cffOffsets ix) ix.data g) :=
+  cffPatch_spec v2 ift b gps m out h hm
+
+/-- **cff_order_independent.**  The new CFF / CFF2 table does not depend on the order of patches that
+agree on shared gids (one call: same bytes, offSize included). -/
+theorem cff_order_independent (v2 : Bool) (ift table : Option Bytes) (gps gps' : List GlyphPatches) (m : Nat)
+    (out : Bytes) (hp : gps.Perm gps') (ha : Agree (cffTag v2) gps)
+    (h : cffPatch v2 ift table gps m = .ok out) : cffPatch v2 ift table gps' m = .ok out :=
+  cffPatch_perm v2 ift table gps gps' m out hp ha h
+
+/-- **cff_grouping_independent.**  The arm in two steps (`gps1`, then `gps2` on the result) against
+`gps1 ++ gps2` in one go: both results are `cffEmit v2 (b.take at) (maxGid+1) t (encodeOffs t os) data`
+— the same bytes before the charstrings INDEX, the same count, the same decoded offsets `os`, the same
+charstring data — with CFF offset types `t2`, `t12` that may differ: exactly known finding
+C18-offset-width-history-dependent (a larger intermediate table leaves a wider offSize behind; see
+the example below).  Equal offSize ⇒ equal bytes. -/
+theorem cff_grouping_independent (v2 : Bool) (ift : Option Bytes) (b : Bytes) (gps1 gps2 : List GlyphPatches)
+    (m : Nat) (out1 out2 out12 : Bytes) (hm : m + 1 < 65536)
+    (hasc : ∀ at_ ix t0, iftCharstringsOffset ift v2 = some at_ → cffView v2 b at_ m = .ok (ix, t0) →
+      ascending (cffOffsets ix) = true)
+    (hagree : Agree (cffTag v2) (gps1 ++ gps2))
+    (h1 : cffPatch v2 ift (some b) gps1 m = .ok out1)
+    (h2 : cffPatch v2 ift (some out1) gps2 m = .ok out2)
+    (h12 : cffPatch v2 ift (some b) (gps1 ++ gps2) m = .ok out12) :
+    ∃ at_ os data t2 t12, iftCharstringsOffset ift v2 = some at_ ∧ at_ ≤ b.length ∧
+      IsCffType t2 ∧ IsCffType t12 ∧
+      out2 = cffEmit v2 (b.take at_) (m + 1) t2 (encodeOffs t2 os) data ∧
+      out12 = cffEmit v2 (b.take at_) (m + 1) t12 (encodeOffs t12 os) data ∧
+      (t2.width = t12.width → out2 = out12) := by
+  obtain ⟨at_, os, data, t2, t12, a1, a2, a3, a4, a5, a6⟩ :=
+    cffPatch_two_step v2 ift b gps1 gps2 m out1 out2 out12 hm hasc hagree h1 h2 h12
+  refine ⟨at_, os, data, t2, t12, a1, a2, a3, a4, a5, a6, ?_⟩
+  intro hw
+  have := IsCffType.eq_of_width a3 a4 hw
+  subst this
+  rw [a5, a6]
+
+/-- **cff_missing_charstrings_offset_is_error.**  Without a charstrings offset for the table in the
+font's `IFT ` mapping table (no `IFT ` table, one `Ift::read` rejects, or the field-presence bit
+clear) the arm fails before it looks at the CFF / CFF2 table or at any patch. -/
+theorem cff_missing_charstrings_offset_is_error (v2 : Bool) (ift table : Option Bytes)
+    (gps : List GlyphPatches) (m : Nat) (h : iftCharstringsOffset ift v2 = none) :
+    cffPatch v2 ift table gps m = .error (.invalidPatch (cffMissingMsg v2)) := by
+  unfold cffPatch; rw [h]
+
+/-- **cff_charstrings_offset_out_of_bounds_is_error.**  A recorded charstrings offset beyond the end of
+the table, or one that leaves fewer bytes than count + offSize + `(count+1)·offSize` offset bytes, is
+`FontParsingFailed(OutOfBounds)` — whatever the patches contain. -/
+theorem cff_charstrings_offset_out_of_bounds_is_error (v2 : Bool) (ift : Option Bytes) (b : Bytes)
+    (gps : List GlyphPatches) (m at_ : Nat) (ha : iftCharstringsOffset ift v2 = some at_)
+    (hr : (if v2 then cff2TableRead b else cffTableRead b) = .ok ())
+    (hbad : b.length < at_ ∨ indexRead (cffCountWidth v2) (b.drop at_) = .error .outOfBounds) :
+    cffPatch v2 ift (some b) gps m = .error (.fontParsingFailed .outOfBounds) := by
+  unfold cffPatch
+  rw [ha]
+  simp only
+  have : cffView v2 b at_ m = .error .outOfBounds := by
+    unfold cffView
+    rw [hr]
+    simp only
+    rcases hbad with e | e
+    · rw [if_pos e]
+    · by_cases c : b.length < at_
+      · rw [if_pos c]
+      · rw [if_neg c, e]
+  rw [this]
+
+/-- **cff_malformed_index_is_error.**  An INDEX at the recorded offset whose offSize is not 1..=4, or
+whose count differs from maxp.numGlyphs (= maxGid + 1), is `FontParsingFailed(MalformedData(…))`. -/
+theorem cff_malformed_index_is_error (v2 : Bool) (ift : Option Bytes) (b : Bytes)
+    (gps : List GlyphPatches) (m at_ : Nat) (ix : IndexView) (ha : iftCharstringsOffset ift v2 = some at_)
+    (hr : (if v2 then cff2TableRead b else cffTableRead b) = .ok ()) (hle : at_ ≤ b.length)
+    (hix : indexRead (cffCountWidth v2) (b.drop at_) = .ok ix)
+    (hbad : (ix.offSize < 1 ∨ 4 < ix.offSize) ∨ ix.count ≠ m + 1) :
+    ∃ msg, cffPatch v2 ift (some b) gps m = .error (.fontParsingFailed (.malformedData msg)) := by
+  unfold cffPatch
+  rw [ha]
+  simp only
+  have : ∃ msg, cffView v2 b at_ m = .error (.malformedData msg) := by
+    unfold cffView
+    rw [hr]
+    simp only
+    rw [if_neg (by omega), hix]
+    simp only
+    cases ht : cffOffsetType ix.offSize with
+    | error e =>
+      unfold cffOffsetType at ht
+      split at ht
+      · cases ht
+      · split at ht
+        · cases ht
+        · split at ht
+          · cases ht
+          · split at ht
+            · cases ht
+            · cases ht; exact ⟨_, rfl⟩
+    | ok t =>
+      simp only
+      obtain ⟨_, hw⟩ := cffOffsetType_ok _ _ ht
+      rcases hbad with hb | hb
+      · exfalso
+        have := (cffOffsetType_ok _ _ ht).1.width_pos
+        omega
+      · rw [if_pos hb]; exact ⟨_, rfl⟩
+  obtain ⟨msg, hm⟩ := this
+  rw [hm]
+  exact ⟨msg, rfl⟩
+
+/-- non-vacuity: a 2-glyph CFF2 table (header, empty global subrs, charstrings INDEX at 11 as recorded in
+a format-2 `IFT ` table with field flag bit 1), patch gid 1 := one byte -/
+example :
+    let cff2 : Bytes := [2,0,5,0,0, 0,0,0,0,1,1, 0,0,0,2,1, 1,2,4, 0xA,0xB,0xC]
+    let ift : Bytes := [2,0,0,0, 2, 1,1,1,1,1,1,1,1,1,1,1,1,1,1,1,1, 3, 0,0,0, 0,0,0,0, 0,0,0,0, 0,0, 0,0,0,11, 0]
+    let gp : GlyphPatches := { glyphCount := 1, tables := [TAG_CFF2], gids := [1], offsets := [1, 2], raw := [9,0xD] }
+    cffPatch true (some ift) (some cff2) [gp] 1 =
+      .ok [2,0,5,0,0, 0,0,0,0,1,1, 0,0,0,2,1, 1,2,3, 0xA,0xD] := by rfl
+
+/-- the known finding C18-offset-width-history-dependent in the model: base CFF charstrings g0 = 200 B,
+g1 = 10 B (offSize 1); A: g1 := 100 B; B: g0 := 5 B.  [A, B] in one call → total 105, offSize stays 1
+(table of 139 bytes); A then B → offSize 2 after A (total 300 > 254) and B keeps it (142 bytes).  Both
+tables decode to the same INDEX: offsets 0, 5, 105 and the same 105 bytes of charstring data. -/
+example :
+    let cff : Bytes := [1,0,4,1, 0,1,1,1,2,7, 0,1,1,1,2,7, 0,1,1,1,2,7, 0,1,1,1,2,7, 0,2, 1, 1,201,211]
+      ++ List.replicate 200 3 ++ List.replicate 10 4
+    let ift : Bytes := [2,0,0,0, 1, 1,1,1,1,1,1,1,1,1,1,1,1,1,1,1,1, 3, 0,0,0, 0,0,0,0, 0,0,0,0, 0,0, 0,0,0,28, 0]
+    let gA : GlyphPatches := { glyphCount := 1, tables := [TAG_CFF], gids := [1], offsets := [1, 101], raw := 9 :: List.replicate 100 5 }
+    let gB : GlyphPatches := { glyphCount := 1, tables := [TAG_CFF], gids := [0], offsets := [1, 6], raw := [9,6,6,6,6,6] }
+    let one := cffPatch false (some ift) (some cff) [gA, gB] 1
+    let two := match cffPatch false (some ift) (some cff) [gA] 1 with
+      | .ok o => cffPatch false (some ift) (some o) [gB] 1
+      | .error e => .error e
+    let view := fun (r : Except PErr Bytes) => r.toOption.bind (fun o =>
+      (indexRead 2 (o.drop 28)).toOption.map (fun ix => (o.take 28 == cff.take 28, ix.count, ix.offSize, cffOffsets ix, ix.data)))
+    view one = some (true, 2, 1, [0, 5, 105], List.replicate 5 6 ++ List.replicate 100 5) ∧
+    view two = some (true, 2, 2, [0, 5, 105], List.replicate 5 6 ++ List.replicate 100 5) := by
+  refine ⟨by decide +kernel, by decide +kernel⟩
+
+/-! ## patches naming SEVERAL tables at once (font level) -/
+
+/-- non-vacuity: ONE patch naming glyf + gvar on a 2-glyph short-loca font with a short gvar: glyph 0 :=
+[5,5], gvar data of glyph 0 := [7,7,7] (padded to 4 under short offsets); head, loca (same lengths), maxp
+untouched; applied bit 170 set -/
+example :
+    let gv : Bytes := [0,1,0,0, 0,1, 0,1, 0,0,0,26, 0,2, 0,0, 0,0,0,28, 0,0, 0,1, 0,2, 0xAA,0xBB, 1,2,3,4]
+    let font : Font := [(TAG_IFT, [2,0,0,0,0, 1,1,1,1,1,1,1,1,1,1,1,1,1,1,1,1, 0]), (TAG_glyf, [1,2,3,4]),
+      (TAG_gvar, gv), (TAG_head, List.replicate 54 0), (TAG_loca, [0,0, 0,1, 0,2]), (TAG_maxp, [0,0,0x50,0, 0,2])]
+    let gp : GlyphPatches := { glyphCount := 1, tables := [TAG_glyf, TAG_gvar], gids := [0], offsets := [1, 3, 6], raw := [9,5,5,7,7,7] }
+    let i : PatchInfo := { uri := "a", iftx := false, compat := [], bit := 170 }
+    applyGlyphPatches [i] [gp] font =
+      .ok [(TAG_IFT, [2,0,0,0,0, 1,1,1,1,1,1,1,1,1,1,1,1,1,1,1,1, 4]), (TAG_glyf, [5,5,3,4]),
+        (TAG_gvar, [0,1,0,0, 0,1, 0,1, 0,0,0,26, 0,2, 0,0, 0,0,0,28, 0,0, 0,2, 0,3, 0xAA,0xBB, 7,7,7,0, 3,4]),
+        (TAG_head, List.replicate 54 0), (TAG_loca, [0,0, 0,1, 0,2]), (TAG_maxp, [0,0,0x50,0, 0,2])] := by rfl
+
+/-- non-vacuity: a patch naming CFF2 + gvar and one naming CFF2 only, on a font with CFF2, `IFT ` (cff2
+charstrings offset 11), gvar and maxp: both orders and the two-step application give the same font;
+CFF2 gid 0 := [6,6,6], gid 1 := [0xD]; gvar gid 1 := [8,8]; applied bits 312 and 313 set -/
+example :
+    let gv : Bytes := [0,1,0,0, 0,1, 0,1, 0,0,0,26, 0,2, 0,0, 0,0,0,28, 0,0, 0,1, 0,2, 0xAA,0xBB, 1,2,3,4]
+    let cff2 : Bytes := [2,0,5,0,0, 0,0,0,0,1,1, 0,0,0,2,1, 1,2,4, 0xA,0xB,0xC]
+    let ift : Bytes := [2,0,0,0, 2, 1,1,1,1,1,1,1,1,1,1,1,1,1,1,1,1, 3, 0,0,0, 0,0,0,0, 0,0,0,0, 0,0, 0,0,0,11, 0]
+    let font : Font := [(TAG_CFF2, cff2), (TAG_IFT, ift), (TAG_gvar, gv), (TAG_maxp, [0,0,0x50,0, 0,2])]
+    let gp1 : GlyphPatches := { glyphCount := 1, tables := [TAG_CFF2, TAG_gvar], gids := [1], offsets := [1, 2, 4], raw := [9,0xD,8,8] }
+    let gp2 : GlyphPatches := { glyphCount := 1, tables := [TAG_CFF2], gids := [0], offsets := [1, 4], raw := [9,6,6,6] }
+    let i1 : PatchInfo := { uri := "a", iftx := false, compat := [], bit := 312 }
+    let i2 : PatchInfo := { uri := "b", iftx := false, compat := [], bit := 313 }
+    let want : Font := [(TAG_CFF2, [2,0,5,0,0, 0,0,0,0,1,1, 0,0,0,2,1, 1,4,5, 6,6,6,0xD]),
+      (TAG_IFT, [2,0,0,0, 2, 1,1,1,1,1,1,1,1,1,1,1,1,1,1,1,1, 3, 0,0,0, 0,0,0,0, 0,0,0,0, 0,0, 0,0,0,11, 3]),
+      (TAG_gvar, [0,1,0,0, 0,1, 0,1, 0,0,0,26, 0,2, 0,0, 0,0,0,28, 0,0, 0,1, 0,2, 0xAA,0xBB, 1,2,8,8]),
+      (TAG_maxp, [0,0,0x50,0, 0,2])]
+    applyGlyphPatches [i1, i2] [gp1, gp2] font = .ok want ∧
+    applyGlyphPatches [i2, i1] [gp2, gp1] font = .ok want ∧
+    (match applyGlyphPatches [i1] [gp1] font with
+     | .ok f1 => applyGlyphPatches [i2] [gp2] f1
+     | .error e => .error e) = .ok want := by
+  refine ⟨by rfl, by rfl, by rfl⟩
+
+/-- non-vacuity of `BaseOk` and of the `hift` hypothesis for that font: its CFF2 INDEX ascends, gvar's
+glyph count is maxp's, and setting bits 312 / 313 (byte 39) leaves the recorded offset alone -/
+example :
+    let ift : Bytes := [2,0,0,0, 2, 1,1,1,1,1,1,1,1,1,1,1,1,1,1,1,1, 3, 0,0,0, 0,0,0,0, 0,0,0,0, 0,0, 0,0,0,11, 0]
+    let ift' : Bytes := [2,0,0,0, 2, 1,1,1,1,1,1,1,1,1,1,1,1,1,1,1,1, 3, 0,0,0, 0,0,0,0, 0,0,0,0, 0,0, 0,0,0,11, 3]
+    let cff2 : Bytes := [2,0,5,0,0, 0,0,0,0,1,1, 0,0,0,2,1, 1,2,4, 0xA,0xB,0xC]
+    (∀ v2, iftCharstringsOffset (some ift') v2 = iftCharstringsOffset (some ift) v2) ∧
+    (cffView true cff2 11 1).toOption.map (fun r => ascending (cffOffsets r.1)) = some true := by
+  refine ⟨by intro v2; cases v2 <;> rfl, by rfl⟩
 
 end FontVerif.C18
